@@ -4,6 +4,7 @@ from ..engine.atomics import is_acquire, is_release, target_of
 from ..engine.dtable import canon, true_rows
 from ..engine.fold import fold
 from . import locks
+from .c12 import mentions
 from .c01 import check_wait_helper
 from .futexflavour import check_flavour
 
@@ -20,6 +21,7 @@ EXPLANATION = (
     "C02.7 the hand-off pairs every cleared waiting bit with its wake (writer: notify bump >=Release then wake>=1 on the notify word; readers: wake i32::MAX on the state word; fall through to readers when no writer was woken), "
     "C02.8 sleepers set/observe their waiting bit first, writers sample the notify sequence (>=Acquire) before re-checking state and sleep on that sample, waits sit in retry loops, "
     "C02.9 try_read/try_write reach no blocking call; plus futex helper/flavour (shared with C01). "
+    "C02.11 potential-panic inventory of the lock's own functions (every arithmetic/assert site auto-discharged or in a reviewed table), and try_read/try_write compute the new lock word lazily under their admission predicate; "
     "C02.10 type-level witnesses: neither guard is Send, a read guard gives no mutable access (no DerefMut), the protected value is private; "
     "NOT decided: lost-wake-up freedom and termination over all interleavings, writer/reader starvation.")
 ASSUMPTIONS = ["Linux futex semantics", "Rust memory model (acquire RMW reading from a release sequence synchronises)",
@@ -341,6 +343,49 @@ def run_one(ck, prog):
     if handoff:
         check_handoff(ck, prog, handoff, cls, STATE, NOTIFY, consts)
 
+    # ---- C02.11 no panic on the way: potential-panic inventory of the lock's own functions ---------------------------------------------
+    # (debug builds check arithmetic: a sum computed for a state that does not admit the caller overflows - try_write would panic
+    # instead of answering false). Every site is auto-discharged or listed here with the reason it cannot fire.
+    from ..engine import panics
+    REVIEWED = {
+        ("read", "overflow_add(load"): "evaluated only after is_read_lockable(state) (short-circuit ||): state < MAX_READERS",
+        ("read_contended", "overflow_add(var:state,1)"): "inside `if is_read_lockable(state)`: state < MAX_READERS",
+        ("read_contended", "explicit-"): "deliberate: more than MAX_READERS simultaneous readers (as in std)",
+        ("read_unlock", "overflow_sub(fetch_sub"): "the caller holds a read lock: the previous value is >= READ_LOCKED",
+        ("read_unlock", "explicit-"): "debug_assert on the state a read-holder must see",
+        ("write_unlock", "overflow_sub(fetch_sub"): "the caller holds the write lock: the previous value contains WRITE_LOCKED",
+        ("write_unlock", "explicit-"): "debug_assert on the state the write-holder must see",
+        ("wake_writer_or_readers", "explicit-"): "debug_assert: called only on an unlocked state",
+        ("wake_writer", "call:unwrap"): "futex_wake on a mapped, aligned word cannot fail (EFAULT/EINVAL only)",
+        ("try_read::{closure#0}::{closure#0}", "overflow_add("): "the lazy closure of `is_read_lockable(s).then(..)`: runs only for an admitting state (s < MAX_READERS)",
+        ("try_write::{closure#0}::{closure#0}", "overflow_add("): "the lazy closure of `is_unlocked(s).then(..)`: runs only for s & MASK == 0 (s + MASK fits)",
+    }
+    n_sites = 0
+    for p2, f2 in sorted(prog.fns.items()):
+        if not p2.startswith(INNER + "::") or f2.get("is_test"):
+            continue
+        c2 = prog.ctx(f2)
+        for site in panics.sites(c2):
+            n_sites += 1
+            okd, whyd = panics.discharge(c2, site)
+            short = p2[len(INNER) + 2:]
+            rev = next((r for (fn_, pre), r in REVIEWED.items() if fn_ == short and site["key"].startswith(pre)), None)
+            from ..engine.cfg import span_str
+            ck.ob("C02.11", f"{short}|{site['key'][:70]}", okd or rev is not None, fn=p2, site=span_str(site["sp"]),
+                  detail=(whyd if okd else (f"reviewed: {rev}" if rev else f"potential panic in the lock's own code: {whyd} - e.g. `cond.then_some(s + X)` evaluates the sum eagerly, for EVERY state, and overflows in builds with overflow checks")))
+    ck.floor("C02.11", "potential-panic sites in InnerLock", n_sites, 8 if ck.config != "R" else 2)
+    # the two lazy closures really are lazy: they are handed to bool::then on the admission predicate
+    for nm, pred in (("try_read", "is_read_lockable"), ("try_write", "is_unlocked")):
+        outer = prog.fns.get(f"{INNER}::{nm}::{{closure#0}}")
+        if not ck.anchor("C02.11", f"{nm} update closure", outer):
+            continue
+        c3 = prog.ctx(outer)
+        thens = [(bb, t) for bb, t in c3.cfg.calls(lambda t: (t.get("callee") or "").endswith(("bool::then", "bool::then_some", "<impl bool>::then", "<impl bool>::then_some")))]
+        ok = len(thens) == 1 and thens[0][1]["callee"].endswith("::then") and mentions(c3.args(thens[0][0])[0], c3.prov, lambda z: z[0] == "call" and (z[1] or "").endswith("::" + pred)) and \
+            not any(site["kind"].startswith("overflow") for site in panics.sites(c3))
+        ck.ob("C02.11", f"{nm}|new-word-computed-only-for-an-admitting-state", ok, fn=outer["path"],
+              detail=f"the new lock word must be computed lazily under {pred}(s) (`{pred}(s).then(|| s + ..)`); computing it before the test overflows for non-admitting states")
+
     # ---- C02.8 sleep discipline --------------------------------------------------------------------------------
     waits = [(c, bb, t, w) for c, bb, t, i, w in passes if t.get("callee") in locks.WAIT_WRAPPERS]
     ck.floor("C02.8", "wait sites", len(waits), 2)
@@ -467,10 +512,24 @@ def classify(prog, ctx, op, word, STATE, NOTIFY, C):
         if len(rets) != 1:
             return None, "fetch_update closure has several returns"
         r = strip_casts(rets[0])
-        if not (isinstance(r, tuple) and r[0] == "call" and (r[1] or "").endswith("::then_some") and len(r[2]) == 2):
-            return None, f"fetch_update closure returns {show(r)}; expected pred(s).then_some(s + C)"
+        if not (isinstance(r, tuple) and r[0] == "call" and (r[1] or "").endswith(("::then_some", "::then")) and len(r[2]) == 2):
+            return None, f"fetch_update closure returns {show(r)}; expected pred(s).then(|| s + C)"
         cond, val = r[2]
         cond, val = strip_casts(cond), strip_casts(val)
+        if (r[1] or "").endswith("::then"):
+            # lazy form: the payload is a closure capturing s by reference and returning s + C
+            inner = val[2] if isinstance(val, tuple) and val[0] == "agg" and val[1] == "closure" else None
+            if inner is None or inner not in prog.fns:
+                return None, f"fetch_update: lazy payload {show(val)} is not a closure"
+            ictx = prog.ctx(inner)
+            irets = list(ictx.ret_expr().values())
+            caps = val[3] if len(val) > 3 else ()
+            cap_is_s = len(caps) == 1 and any(z[0] == "param" and z[1] == 2 for z in walk(caps[0]))
+            iv = strip_casts(irets[0]) if len(irets) == 1 else None
+            if not (cap_is_s and isinstance(iv, tuple) and iv[0] == "bin" and iv[1] == "Add" and const_value(iv[3]) is not None and
+                    any(z[0] == "param" and z[1] == 1 for z in walk(iv[2]))):
+                return None, f"fetch_update: lazy payload computes {show(iv) if iv else None}; expected s + C over the captured s"
+            val = ("bin", "Add", ("param", 2, "s"), iv[3])
         if not (isinstance(val, tuple) and val[0] == "bin" and val[1] == "Add" and isinstance(val[2], tuple) and val[2][0] == "param" and val[2][1] == 2):
             return None, f"fetch_update new value {show(val)} is not s + C"
         c = const_value(val[3])
